@@ -84,11 +84,12 @@ func TestC27(t *testing.T) {
 	}
 	legacyChaCha := []uint16{tls.OLD_TLS_ECDHE_RSA_WITH_CHACHA20_POLY1305_SHA256, tls.OLD_TLS_ECDHE_ECDSA_WITH_CHACHA20_POLY1305_SHA256}
 	weakCBC := []uint16{tls.DISABLED_TLS_RSA_WITH_AES_256_CBC_SHA256, tls.DISABLED_TLS_ECDHE_ECDSA_WITH_AES_256_CBC_SHA384, tls.DISABLED_TLS_ECDHE_RSA_WITH_AES_256_CBC_SHA384}
-	if !weak {
-		for _, id := range legacyChaCha {
-			required[[2]uint16{id, tls.VersionTLS12}] = true
-		}
-	} else {
+	// the legacy ChaCha20 code points are supported with and without EnableWeakCiphers: enabling
+	// further suites takes none away
+	for _, id := range legacyChaCha {
+		required[[2]uint16{id, tls.VersionTLS12}] = true
+	}
+	if weak {
 		for _, id := range weakCBC {
 			required[[2]uint16{id, tls.VersionTLS12}] = true
 		}
@@ -133,7 +134,4 @@ func TestC27(t *testing.T) {
 		}
 	})
 	r.Floor("required_pairs_exchanged", int64(len(required)))
-	if weak {
-		r.Note(fmt.Sprintf("observation: after EnableWeakCiphers the legacy ChaCha20 ids produced %d connections (recorded, not asserted)", r.Counter("legacy_chacha_created")))
-	}
 }
